@@ -472,6 +472,12 @@ Ref World::apply_forms_misc(const Op& op)
             return nref(*d);
          } break;
       case 9: if (auto d = ifundecls.pick(i)) {
+            if (uint64_t(op.a[3]) % 4 == 3) {
+               // marked as a definition whose mapping has not been supplied yet: the mapping alternative holds nothing
+               d->data.emplace<1>(nullptr);
+               if (Rec* rc = rec(nref(*d))) { rc->exp.set_r("mapping", nullptr); rc->exp.set_r("initializer", nullptr); rc->exp.set_r("parameters", ABSENT); }
+               return nref(*d);
+            }
             if (mappings.empty()) break;
             impl::Mapping* m = mappings.pick(op.a[2]);
             if (not older(nref(*m), nref(*d))) break;
@@ -550,7 +556,14 @@ Ref World::apply_forms_misc(const Op& op)
          } break;
       case 6: if (auto n = for_ins.pick(i)) {
             const uint64_t f = uint64_t(op.a[4]) % 3;
-            if (f == 0 and not vars.empty()) { const ipr::Var* v = vars.pick(op.a[5]); n->var = v; if (Rec* rc = rec(nref(*n))) rc->exp.set_r("variable", nref(*v)); }
+            if (f == 0 and not vars.empty()) {
+               // the loop variable is printed in full by the loop: like every link set later, it goes to an older node
+               const ipr::Var* v = nullptr;
+               for (int k = 0; k < 6 and v == nullptr; ++k) { const ipr::Var* c = vars.pick(op.a[5] + k); if (c != nullptr and older(nref(*c), nref(*n))) v = c; }
+               if (v == nullptr) return nref(*n);
+               n->var = v;
+               if (Rec* rc = rec(nref(*n))) rc->exp.set_r("variable", nref(*v));
+            }
             else if (f == 1) { n->seq = &x; if (Rec* rc = rec(nref(*n))) rc->exp.set_r("sequence", nref(x)); }
             else if (st != nullptr and nref(*st) != nref(*n)) {
                n->stmt = st;
